@@ -418,7 +418,9 @@ pub fn analyze(case: &Case, run: &Run) -> Analysis {
             Err(e) => a.failures.push(Failure { category: "books:figures-returned-error".into(), detail: e.clone() }),
             Ok((size, entry_count, reported)) => {
                 let mut wrong: Vec<String> = Vec::new();
-                if case.sys == Sys::Container {
+                if case.sys == Sys::Multi {
+                    // no figures are compared for the layered cache (see System::figures)
+                } else if case.sys == Sys::Container {
                     if *entry_count != hits {
                         wrong.push(format!("entry_count() = {entry_count}"));
                     }
